@@ -181,6 +181,26 @@ auto Run<Char, N, Tr>::do_query(std::uint32_t code) -> void
         auto n1  = qc(op.a / 8, size - p1, p1);
         auto p2  = vpos(op.c >> 4, o.size());
         auto n2  = qc(op.c >> 7, o.size() - p2, p2);
+        // aligned mode (a quarter of the cases): the other string embeds the selected part of this string behind a
+        // short prefix and in front of a short suffix, and (pos2, count2) select exactly that part (or one more / one
+        // less): independent random operands almost never compare equal, and only (near-)equal selections tell a
+        // wrong clamp of count2 from a right one
+        if (spread(op.b ^ 0x5bd1e995U) % 4 == 0) {
+            M part            = m.substr(p1, std::min<std::size_t>(n1, size - p1));
+            std::size_t pre   = spread(op.c ^ 0x27d4eb2fU) % 3;
+            std::size_t post  = spread(op.c ^ 0x165667b1U) % 3;
+            Char const ch2    = ch == std::numeric_limits<Char>::max() ? static_cast<Char>(ch - 1) : static_cast<Char>(ch + 1); // wchar_t is a signed int here
+            M cand            = M(pre, ch) + part + M(post, ch2);
+            if (cand.size() <= N) {
+                o  = cand;
+                p2 = pre;
+                switch (spread(op.a ^ 0x85ebca6bU) % 4) {
+                case 0: n2 = part.size() + 1; break;
+                case 1: n2 = part.empty() ? 0 : part.size() - 1; break;
+                default: n2 = part.size(); break;
+                }
+            }
+        }
         auto co  = no_nul(o);
         nt_edge |= (p1 == size);
         int got = 0, exp = 0;
